@@ -24,6 +24,7 @@ type dpLast struct {
 	before *dpState
 	kind   string // recv | remove
 	ref    string
+	photos []photo // remove via dp.rm: the pack files at the real write boundaries
 }
 
 type dpSlot struct {
@@ -74,6 +75,15 @@ func (in *interp) harnessErr(err error) string {
 		fmt.Fprintln(os.Stderr, "c03 harness error:", err)
 	}
 	return "harness-err"
+}
+
+// rowInBounds: the row of ref exists and its extent lies inside its pack file
+func rowInBounds(st *dpState, ref string) bool {
+	var file, off, size int
+	if n, err := fmt.Sscan(st.rows[ref], &file, &off, &size); n != 3 || err != nil {
+		return false
+	}
+	return file < len(st.packs) && off+size <= len(st.packs[file])
 }
 
 func refArg(s string) (blob.Ref, bool) { return blob.Parse(s) }
@@ -213,12 +223,51 @@ func (in *interp) runDp(w []string) string {
 		in.dpLast = nil
 		if len(subs) == 1 {
 			if subs[0].recv {
-				in.dpLast = &dpLast{before, "recv", subs[0].ref.String()}
+				in.dpLast = &dpLast{before, "recv", subs[0].ref.String(), nil}
 			} else if len(subs[0].refs) == 1 {
-				in.dpLast = &dpLast{before, "remove", subs[0].refs[0].String()}
+				in.dpLast = &dpLast{before, "remove", subs[0].refs[0].String(), nil}
 			}
 		}
 		return strings.Join(outs, " ")
+	case "dp.rm":
+		// RemoveBlobs of one blob, photographed at its real write boundaries
+		if len(w) != 3 || (w[1] != "punch" && w[1] != "fill" && w[1] != "half") {
+			return "bad-op"
+		}
+		r, ok := refArg(w[2])
+		if !ok {
+			return "bad-op"
+		}
+		mode := w[1]
+		if !rowInBounds(in.dp, r.String()) {
+			mode = "punch" // zero-filling beyond the end of the file would extend it; keep to the punch semantics
+		}
+		before := in.dp.clone()
+		photos, err := in.dp.removePhotographed(r, mode)
+		if err != nil {
+			return in.harnessErr(err)
+		}
+		in.dpLast = &dpLast{before, "remove", r.String(), photos}
+		return fmt.Sprintf("done %d", len(photos))
+	case "dp.photo":
+		if len(w) != 2 || in.dpLast == nil || in.dpLast.photos == nil {
+			return "bad-op"
+		}
+		i, ok := natArg(w[1])
+		if !ok || i >= len(in.dpLast.photos) {
+			return "bad-op"
+		}
+		l := in.dpLast
+		st := l.before.clone()
+		st.packs = nil
+		for _, p := range l.photos[i].packs {
+			st.packs = append(st.packs, append([]byte{}, p...))
+		}
+		if i == len(l.photos)-1 {
+			st.rows = in.dp.clone().rows // RemoveBlobs returned: the batch is committed
+		}
+		in.dp, in.dpLast = st, nil
+		return "ok"
 	case "dp.crash":
 		if len(w) != 5 || in.dpLast == nil {
 			return "bad-op"
